@@ -319,6 +319,26 @@ def prepareMigration (s : State) (pid v gpu : Nat) : Except Fault ((Nat × Nat) 
       | .error e => .error e
       | .ok pt' => .ok ((pg.paddr, old.paddr), { s' with pt := pt' })
 
+/-- MemoryAllocator.ReleasePhysicalPage (added by the repair of finding `C10-migration-keeps-replaced-page`):
+`addSinglePAddr` on the device whose range contains the page (`deviceIDByPAddr` panics when none does). The driver
+calls it with the old page of a migrated page when it handles the page's `PageMigrationRspToDriver` (C19 proves that
+discipline); it is NOT one of the history operations `Op`: the conservation theorems over `run` are about the calls
+that take or overwrite pages, `releasePage` is the call that puts a kept page back (ghost `leaked` − 1). -/
+def releasePage (s : State) (p : Nat) : Except Fault State :=
+  match devOf s.devs p with
+  | none => .error .noDevice
+  | some d => .ok { s with pool := { s.pool with frees := s.pool.frees.modify d (· ++ [p]) }, leaked := s.leaked - 1 }
+
+/-- a page migration from its preparation to its completion: `preparePageForMigration`, (the page migration
+controller copies the page,) `ReleasePhysicalPage` of the old page -/
+def migrateComplete (s : State) (pid v gpu : Nat) : Except Fault ((Nat × Nat) × State) :=
+  match prepareMigration s pid v gpu with
+  | .error e => .error e
+  | .ok ((n, o), s1) =>
+    match releasePage s1 o with
+    | .error e => .error e
+    | .ok s2 => .ok ((n, o), s2)
+
 /-! ## distributorImpl.Distribute -/
 
 /-- the Remap calls `Distribute` issues, as (address, byteSize, index into gpuIDs) -/
@@ -662,9 +682,17 @@ def runTrace (verbose : Bool) : State → List (List String) → List String →
         runTrace verbose s' ts (o :: acc) d
 
 /-- `c10 lost l2= cpu= gpus= ; op ; …` lines: after every step the ghost counter of physical pages that were
-replaced and not given back, and the physical pages that are neither free nor mapped -/
+replaced and not given back, and the physical pages that are neither free nor mapped (`rel <paddr>` =
+ReleasePhysicalPage) -/
 def runLost (all : List Nat) : State → List (List String) → List String → List String
   | _, [], acc => acc.reverse
+  | s, ["rel", p] :: ts, acc =>
+    -- `rel <hex paddr>`: MemoryAllocator.ReleasePhysicalPage (not a history operation of `step`)
+    match (hexNat? p).map (releasePage s) with
+    | none => ("bad-op" :: acc).reverse
+    | some (.error e) => (e.str :: acc).reverse
+    | some (.ok s') =>
+      runLost all s' ts (s!"k={s'.leaked} lost={joinWith "," ((lostPages all s').map toHex)}" :: acc)
   | s, t :: ts, acc =>
     match parseOp t with
     | none => ("bad-op" :: acc).reverse
